@@ -18,7 +18,7 @@ RULE = (
     "the database cache and the pool: (category, type, unit, composing units/categories, joined exponents, deep "
     "copy of the composing map, caption, IsDerived, repr, hash) equals the tuple recorded at first sight. Per step: "
     "same request twice -> identical object; same resolution -> == and equal hash; different resolution -> !=; "
-    "copy/deepcopy -> identical; pickle -> equal; mutators raise ReadOnlyError/AttributeError. Non-trivial = sequence "
+    "copy/deepcopy -> identical; pickle -> equal; mutators raise ReadOnlyError/AttributeError. A Scalar / Array / FixedArray built on a pool quantity (constructor and CreateWithQuantity), its CreateCopy, copy and pickle hold a quantity equal to it with the same hash, caption and snapshot. Non-trivial = sequence "
     "with a derived/empty/captioned quantity or a failed operation after >= 1 arithmetic step; key = the sequence."
 )
 ASSUMPTIONS = ["callers mutating the map returned by GetCategoryToUnitAndExps() themselves are outside 'public operations'"]
@@ -340,6 +340,35 @@ class Machine:
             if not (b == a and a == b) or hash(a) != hash(b):
                 self.fail("pickle_round_trip_not_equal", "%r -> %r" % (a, b))
             self.add(b, res_key(a))
+        elif kind == "wrap":
+            # value objects built on a quantity carry that quantity - category, unit, caption, equality class and hash -
+            # through construction, copies and (Scalar, FixedArray) pickling
+            from barril.units import Array, FixedArray, Scalar
+
+            a = self.pick(op[1])
+            if a is None:
+                return
+            forms = [
+                ("Scalar(q, v)", lambda: Scalar(a, 1.5), True),
+                ("Scalar.CreateWithQuantity", lambda: Scalar.CreateWithQuantity(a, 1.5), True),
+                ("Array(q, values)", lambda: Array(a, [1.0, 2.0]), False),
+                ("Array.CreateWithQuantity", lambda: Array.CreateWithQuantity(a, [1.0, 2.0]), False),
+                ("FixedArray(n, q, values)", lambda: FixedArray(2, a, [1.0, 2.0]), True),
+            ]
+            name, fn, pickles = forms[op[2] % len(forms)]
+            try:
+                o = fn()
+            except (UnitsError, TypeError, ValueError, AssertionError):
+                self.flags.add("failed_op")
+                return
+            held = [(name, o.GetQuantity()), (name + ".CreateCopy()", o.CreateCopy().GetQuantity()), (name + " copy", copy.copy(o).GetQuantity())]
+            if pickles:
+                held.append((name + " pickled", pickle.loads(pickle.dumps(o, protocol=op[3] % (pickle.HIGHEST_PROTOCOL + 1))).GetQuantity()))
+            for what, q in held:
+                self.ctx.ev()
+                if not (q == a and a == q) or hash(q) != hash(a) or q.GetUnknownCaption() != a.GetUnknownCaption() or snap(q) != snap(a):
+                    self.fail("value_object_holds_another_quantity", "%s built on %r holds %r (caption %r / %r)" % (what, a, q, a.GetUnknownCaption(), q.GetUnknownCaption()))
+            self.flags.add("wrapped")
         elif kind == "mutate":
             a = self.pick(op[1])
             if a is None:
@@ -391,6 +420,7 @@ def op_strategy():
         st.tuples(st.just("copy"), i),
         st.tuples(st.just("pickle"), i, i),
         st.tuples(st.just("mutate"), i),
+        st.tuples(st.just("wrap"), i, i, i),
     )
 
 
